@@ -233,8 +233,8 @@ func verifC20serve(K, preempt, forks int) {
 func verif_C20_races() {
 	verifPreemptBound(verifBound(1, 2))
 	verifSchedForkBound(verifBound(3, 5))
-	scenario := verifChoice(3)
-	be := &vbackend{}
+	scenario := verifChoice(5)
+	be := &vbackend{lmtpSession: scenario == 4}
 	be.dataFn = func(_ *vsession, r io.Reader) error {
 		_, e := verifReadAll(r, 4)
 		if e == io.EOF {
@@ -242,9 +242,22 @@ func verif_C20_races() {
 		}
 		return e
 	}
+	be.lmtpFn = func(_ *vsession, r io.Reader, st StatusCollector) error {
+		_, e := verifReadAll(r, 4)
+		if e == io.EOF {
+			return nil
+		}
+		return e
+	}
 	s, _ := verifServer(be)
+	s.LMTP = scenario >= 3
 	var in string
 	switch scenario {
+	case 3, 4:
+		// LMTP (3: backend without LMTPSession, one status for all recipients;
+		// 4: per-recipient backend): a chunked transfer is abandoned, its
+		// delivery finishes while the next envelope is being built
+		in = "LHLO c\r\nMAIL FROM:<a@v>\r\nRCPT TO:<b@v>\r\nBDAT 2\r\nabRSET\r\nMAIL FROM:<a2@v>\r\nRCPT TO:<b2@v>\r\nRCPT TO:<c2@v>\r\nBDAT 2 LAST\r\nxy"
 	case 0:
 		in = "EHLO c\r\nMAIL FROM:<a@v>\r\nRCPT TO:<b@v>\r\nBDAT 2\r\nabNOOP\r\nRCPT TO:<c@v>\r\n"
 	case 1:
@@ -253,7 +266,7 @@ func verif_C20_races() {
 		in = "EHLO c\r\nMAIL FROM:<a@v>\r\nRCPT TO:<b@v>\r\nDATA\r\nx\r\n.\r\nEHLO d\r\nNOOP\r\n"
 	}
 	vc := &vconn{in: []byte(in), final: io.EOF}
-	if scenario != 1 {
+	if scenario == 0 || scenario == 2 {
 		vc.hold = make(chan struct{})
 	}
 	c := newConn(vc, s)
@@ -263,7 +276,7 @@ func verif_C20_races() {
 		s.handleConn(c)
 		close(done)
 	}()
-	if scenario != 1 {
+	if scenario == 0 || scenario == 2 {
 		go func() {
 			s.Close()
 		}()
